@@ -240,7 +240,7 @@ seeded('C08', 'remove_listener without membership test', 'R8.3',
        [('pubsub', "            if listener in self._listeners[event_type]:\n                self._listeners[event_type].remove(listener)\n                if len(list(self._listeners[event_type])) == 0:\n                    del self._listeners[event_type]",
          "            self._listeners[event_type].remove(listener)\n            if len(list(self._listeners[event_type])) == 0:\n                del self._listeners[event_type]")], key='remove')
 seeded('C08', 'emptied list keeps its key', 'R8.3',
-       [('pubsub', "                if len(list(self._listeners[event_type])) == 0:\n                    del self._listeners[event_type]", "                pass")], key='delete-empty')
+       [('pubsub', "                if len(list(self._listeners[event_type])) == 0:\n                    del self._listeners[event_type]", "                pass")], key='remove_listener')
 seeded('C08', 'remove_all_listeners(type) clears everything', 'R8.3',
        [('pubsub', "            if listener == None:\n                if event_type in self._listeners:\n                    del self._listeners[event_type]", "            if listener == None:\n                self._listeners.clear()")], key='type-given-listener-none')
 seeded('C08', 'remove_all_listeners iterates the live key view', 'R8.3',
